@@ -25,7 +25,10 @@ ASSUMPTIONS = [
 VARIANTS = [["part", 2, 7], ["part", 4, 7], ["part", 2, 11], ["part", 3, 7], ["part", 2, 9], ["part", 1, 15], ["part", 16, 15],
             ["part", 3, 11], ["part", 4, 15], ["part", 1, 3],
             ["vals", [1, 2, 4]], ["vals", [1, 2, 4, 8]], ["vals", [1, 2]], ["vals", [2, 4, 8]], ["vals", [1, 2, 4, 8, 13]]]
-CP1_EXPR = "{'x': (vsc.bin_array([spec[1]], [0, spec[2]]) if spec[0] == 'part' else vsc.bin_array([], *spec[1]))}"
+# ("wild", pattern): one wildcard bin; several patterns agree on value & mask and differ in the mask only ("0b10xx" / "0b1000")
+WILD_VARIANTS = [["wild", "0b10xx"], ["wild", "0b1000"], ["wild", "0b100x"], ["wild", "0bx1x0"], ["wild", "0b0100"], ["wild", "0bxx00"]]
+CP1_EXPR = ("{'x': (vsc.bin_array([spec[1]], [0, spec[2]]) if spec[0] == 'part' else vsc.wildcard_bin(spec[1]) if spec[0] == 'wild' "
+            "else vsc.bin_array([], *spec[1]))}")
 
 
 def variant_bins(v):
@@ -33,6 +36,8 @@ def variant_bins(v):
         v = ["part", v[0], v[1]]
     if v[0] == "part":
         return [set(x) for x in cov.partition(range(0, v[2] + 1), v[1])]
+    if v[0] == "wild":
+        return [{x for x in range(16) if cov.wild_match(x, [v[1]])}]
     return [{x} for x in v[1]]
 
 
@@ -40,7 +45,10 @@ def variant_bins(v):
 def cases(d):
     nvar = d.randint(1, 3)
     variants = d.sample(VARIANTS, nvar)
-    if nvar >= 2 and d.chance(35):
+    if nvar >= 2 and d.chance(20):
+        # wildcard bins given by the constructor argument: patterns with the same compared value and different masks
+        variants = d.sample(WILD_VARIANTS, nvar)
+    elif nvar >= 2 and d.chance(35):
         # force a prefix-related pair
         variants[:2] = d.choice([[["vals", [1, 2, 4]], ["vals", [1, 2, 4, 8]]], [["vals", [1, 2, 4, 8]], ["vals", [1, 2]]],
                                  [["part", 2, 7], ["part", 3, 11]], [["part", 4, 15], ["part", 3, 11]], [["part", 1, 3], ["part", 2, 7]]])
